@@ -42,7 +42,8 @@ LEVEL_TEXT = ("All operation sequences of length 1 over the full alphabet and of
               "changes the object graph only at that key's storage location (located mechanically beforehand); any "
               "operation on an invalid key is rejected by an exception and leaves the complete structural snapshot "
               "unchanged (no new attribute anywhere). Entry points: invalid / undeclared / disabled-model keys must be "
-              "rejected before any model ran (empty probe trace) with the caller's objects unchanged.")
+              "rejected before any model ran (empty probe trace) with the caller's objects unchanged."
+              " Override keys addressed to the running mode are also given as text, and the command-line entry pyxel.run(file, override=['key=text']) is executed for detector, model-argument, enabled-flag and running-mode keys (valid and misspelt).")
 LEVEL_NOTE = ("Bounded: sequence length, one generated pipeline (2 groups x 2 models, one disabled, int/float/bool/str/list "
               "arguments, one argument name shared by two models), palette of 17 values, one derived key per (valid key, "
               "derivation rule). Keys that address existing non-setting containers (last segment dropped, e.g. "
